@@ -28,6 +28,14 @@ class DiscUnit(Unit):
     def candidate_replay(self, ctx, prog, o):
         from .. import lreplay
         return lreplay.disc(prog, o.fn)
+    def skip_verus(self, ctx, prog):
+        import re
+        if any(v.disc and re.search(r'<<|>>|/|%|\||&|\^', v.disc) for v in prog.variants):
+            return 'discriminant expressions with shift / division / bit operators are outside Verus\' const evaluation; decided by the Kani twin'
+    def kani_module(self, ctx, prog):
+        return spec_misc.kani_disc(prog, 'restricted_vis' in prog.tags)[0]
+    def kani_harnesses(self, ctx, prog):
+        return spec_misc.kani_disc(prog, 'restricted_vis' in prog.tags)[1]
     def extra_checks(self, ctx, progs, items):
         for p in progs:
             o = core.Obligation('%s/rustc:discriminant-type-has-requested-derives-under-its-name' % p.name, p.name, 'derives', 'rustc', ['C09'])
